@@ -33,10 +33,11 @@ func OSHackpadFS() (hackpadfs.FS, func(), error) {
 }
 
 // ComposeFrom returns constructors of composed file systems that already hold the model's initial tree.
-//   mnt:<point>   mount.FS with a mem.FS mounted at <point> (content below the point lives in the mounted FS)
-//   subview:<dir> Sub(mem, dir) view, content built through the view
-//   cache         cache.ReadOnlyFS over a mem source
-//   tar           tar.ReaderFS unpacked from an archive of the tree
+//
+//	mnt:<point>   mount.FS with a mem.FS mounted at <point> (content below the point lives in the mounted FS)
+//	subview:<dir> Sub(mem, dir) view, content built through the view
+//	cache         cache.ReadOnlyFS over a mem source
+//	tar           tar.ReaderFS unpacked from an archive of the tree
 func ComposeFrom(kind string) func(init *tla.Value, populate func(hackpadfs.FS) error) (hackpadfs.FS, func(), error) {
 	return func(init *tla.Value, populate func(hackpadfs.FS) error) (hackpadfs.FS, func(), error) {
 		none := func() {}
